@@ -280,10 +280,33 @@ pub fn generate(seed: u64, tier: &str, out: &mut dyn std::io::Write) {
         let mut r = Rng::for_case(seed, 16, i);
         writeln!(out, "{}", one_case(&format!("v{}-{}", seed, i), &mut r, max_ops, false)).unwrap();
     }
+    for i in 0..(if tier == "thorough" { 400 } else { 60 }) {
+        writeln!(out, "{}", dir_position_case(&format!("d{}-{}", seed, i), &mut Rng::for_case(seed, 2016, i))).unwrap();
+    }
     for i in 0..n_hostile {
         let mut r = Rng::for_case(seed, 1016, i);
         writeln!(out, "{}", one_case(&format!("h{}-{}", seed, i), &mut r, max_ops, true)).unwrap();
     }
+}
+
+/// the directory array reserved by `DirSection::new` on an image that already holds `pre` bytes, with a destination
+/// positioned at `start`: the position it reports (what the header stores as the directory's location) is the offset
+/// at which the array was reserved in the image, wherever the destination stands
+fn dir_position_case(id: &str, r: &mut Rng) -> String {
+    use crate::recdest::RecDest;
+    use minidump_writer::dir_section::DirSection;
+    let pre = *r.pick(&[0usize, 4, 32, 100]);
+    let c0len = *r.pick(&[0usize, 5, 40, 4096]);
+    let start = if c0len == 0 { 0 } else { r.range(0, c0len as u64) };
+    let slots = r.range(1, 20) as u32;
+    let mut buf = Buffer::with_capacity(0);
+    buf.write_all(&r.bytes(pre));
+    let mut dest = RecDest::new(r.bytes(c0len), start);
+    let before = buf.len();
+    let res = DirSection::new(&mut buf, slots, &mut dest).map(|d| d.position());
+    let after = buf.len();
+    format!("C16 {} kind=dirpos pre={} start={} slots={} before={} after={} position={}", id, pre, start, slots, before, after,
+        match res { Ok(p) => p.to_string(), Err(_) => "err".to_string() })
 }
 
 pub fn one(id: &str, seed: u64, index: u64) -> Option<String> {
